@@ -30,6 +30,10 @@ Oracle = the property:
       branch coverage  key (previous address, destination): the two addresses are consecutive in the trace;
       code coverage    key destination: the address is in the trace;
       path coverage    key (a0, ..., ak, destination): the trace starts with exactly these addresses.
+A solution whose destination is an IR block generated inside one instruction (the #DE arm of a division) has no address
+and is counted, not replayed; an initial input on which the program itself faults (quotient overflow) is skipped and
+counted. Which model the solver returns depends on the history of its context: a replay that is handed another model
+judges the recorded input against the assertions under which this run's DSE asked for a model (closed-term folding).
 Nothing is demanded about WHICH solutions are produced (completeness is not part of the property); their numbers are
 counted so that vacuity is visible.
 """
